@@ -3,7 +3,7 @@ CONSTANTS
     MaxLen = 2
     MaxVals = 2
     MaxIds = 6
-    MaxSteps = 3
+    MaxSteps = 4
 INVARIANTS Inv EmitHist
 VIEW LedgerView
 CHECK_DEADLOCK FALSE
